@@ -11,7 +11,8 @@ Open Scope Z_scope.
 Definition IO_IDLE := 0.  Definition IO_PENDING := 1.  Definition IO_ACTIVE := 2.
 Definition IO_COMPLETED := 3.  Definition IO_ABORTED := 4.
 
-Record iocb := mkIo { i_state : Z; i_cb : Z; i_fail : bool; i_addr : Z }.
+(* i_follow: the callback of this IOCB submits a follow-up request (IOCB number, address, refused below) *)
+Record iocb := mkIo { i_state : Z; i_cb : Z; i_fail : bool; i_addr : Z; i_follow : option (Z * Z * bool) }.
 (* one SieveQueue: the generation tells apart successive queue objects for one address *)
 Record sq := mkSq { q_gen : Z; q_state : Z; q_active : option Z; q_queue : list Z }.
 
@@ -22,7 +23,7 @@ Record iow := mkIow {
   w_gen : Z;
   w_ev : list (list Z) }.            (* newest first *)
 
-Inductive op := OSubmit (i addr : Z) (fail : bool) | OConfirm (addr : Z) (ok : bool) | OAbort (i : Z) | ORun.
+Inductive op := OSubmit (i addr : Z) (fail : bool) (follow : option (Z * Z * bool)) | OConfirm (addr : Z) (ok : bool) | OAbort (i : Z) | ORun.
 
 Fixpoint lookup {A} (k : Z) (l : list (Z * A)) : option A :=
   match l with [] => None | (k', v) :: r => if k =? k' then Some v else lookup k r end.
@@ -41,24 +42,12 @@ Definition defer (a g : Z) (w : iow) : iow := mkIow (w_io w) (w_qs w) (w_def w +
 
 Definition terminal_io (b : iocb) : bool := (i_state b =? IO_COMPLETED) || (i_state b =? IO_ABORTED).
 
-(* IOController.complete_io / abort_io: nothing if already finished; else the new state, then IOCB.trigger (leave the
-   queue it may be in, fire the callback) *)
-Definition finish (i new : Z) (w : iow) : iow :=
-  match lookup i (w_io w) with
-  | None => w
-  | Some b =>
-    if terminal_io b then w
-    else
-      let w := set_io i (mkIo new (i_cb b + 1) (i_fail b) (i_addr b)) w in
-      let w := match lookup (i_addr b) (w_qs w) with
-               | Some q => set_q (i_addr b) (mkSq (q_gen q) (q_state q) (q_active q) (remove_id i (q_queue q))) w
-               | None => w end in
-      log [21; i; new] w
-  end.
+(* The IOCB callbacks may call request_io again, so "finish an IOCB" and "submit an IOCB" call each other; `fin` is
+   what finishing means for the callees (one level less fuel), the knot is tied by `fin` below. *)
 
 (* IOQController.complete_io / abort_io for IOCB i at the queue of address a *)
-Definition q_finish (a i new : Z) (w : iow) : iow :=
-  let w := finish i new w in
+Definition q_finish_w (fin : Z -> Z -> iow -> iow) (a i new : Z) (w : iow) : iow :=
+  let w := fin i new w in
   match lookup a (w_qs w) with
   | None => w
   | Some q =>
@@ -71,24 +60,24 @@ Definition q_finish (a i new : Z) (w : iow) : iow :=
   end.
 
 (* SieveQueue.process_io: active_io, then hand the request down; a refusal below is caught by the caller, which aborts *)
-Definition process_io (a i : Z) (w : iow) : iow :=
+Definition process_io_w (fin : Z -> Z -> iow -> iow) (a i : Z) (w : iow) : iow :=
   match lookup i (w_io w), lookup a (w_qs w) with
   | Some b, Some q =>
-    if negb ((i_state b =? IO_IDLE) || (i_state b =? IO_PENDING)) then q_finish a i IO_ABORTED w   (* RuntimeError in active_io *)
+    if negb ((i_state b =? IO_IDLE) || (i_state b =? IO_PENDING)) then q_finish_w fin a i IO_ABORTED w   (* RuntimeError in active_io *)
     else
-      let w := set_io i (mkIo IO_ACTIVE (i_cb b) (i_fail b) (i_addr b)) w in
+      let w := set_io i (mkIo IO_ACTIVE (i_cb b) (i_fail b) (i_addr b) (i_follow b)) w in
       let w := set_q a (mkSq (q_gen q) 1 (Some i) (q_queue q)) w in
       let w := log [20; i] w in
-      if i_fail b then q_finish a i IO_ABORTED w else w
+      if i_fail b then q_finish_w fin a i IO_ABORTED w else w
   | _, _ => w
   end.
 
 (* IOController.request_io -> ApplicationIOController.process_io -> IOQController.request_io *)
-Definition submit (i a : Z) (fail : bool) (w : iow) : iow :=
+Definition submit_w (fin : Z -> Z -> iow -> iow) (i a : Z) (fail : bool) (fo : option (Z * Z * bool)) (w : iow) : iow :=
   match lookup i (w_io w) with
   | Some _ => w                                   (* the harness never submits a number twice *)
   | None =>
-    let w := set_io i (mkIo IO_PENDING 0 fail a) w in
+    let w := set_io i (mkIo IO_PENDING 0 fail a fo) w in
     let w := match lookup a (w_qs w) with
              | Some _ => w
              | None => mkIow (w_io w) (update a (mkSq (w_gen w) 0 None []) (w_qs w)) (w_def w) (w_gen w + 1) (w_ev w)
@@ -97,9 +86,38 @@ Definition submit (i a : Z) (fail : bool) (w : iow) : iow :=
     | None => w
     | Some q =>
       if negb (q_state q =? 0) then set_q a (mkSq (q_gen q) (q_state q) (q_active q) (q_queue q ++ [i])) w
-      else process_io a i w
+      else process_io_w fin a i w
     end
   end.
+
+(* IOController.complete_io / abort_io: nothing if already finished; else the new state, then IOCB.trigger: leave the queue
+   it may be in, fire the callback — which may submit the follow-up request, synchronously *)
+Fixpoint fin (fuel : nat) (i new : Z) (w : iow) : iow :=
+  match fuel with
+  | O => w
+  | S k =>
+    match lookup i (w_io w) with
+    | None => w
+    | Some b =>
+      if terminal_io b then w
+      else
+        let w := set_io i (mkIo new (i_cb b + 1) (i_fail b) (i_addr b) (i_follow b)) w in
+        let w := match lookup (i_addr b) (w_qs w) with
+                 | Some q => set_q (i_addr b) (mkSq (q_gen q) (q_state q) (q_active q) (remove_id i (q_queue q))) w
+                 | None => w end in
+        let w := log [21; i; new] w in
+        match i_follow b with
+        | None => w
+        | Some (j, a2, f2) => submit_w (fin k) j a2 f2 None (log [23; j] w)
+        end
+    end
+  end.
+
+Definition FUEL : nat := 64.
+Definition finish := fin FUEL.
+Definition q_finish := q_finish_w finish.
+Definition process_io := process_io_w finish.
+Definition submit := submit_w finish.
 
 (* ApplicationIOController.confirmation -> _app_complete *)
 Definition confirm (a : Z) (ok : bool) (w : iow) : iow :=
@@ -149,7 +167,7 @@ Definition run_batch (w : iow) : iow :=
 
 Definition do_op (o : op) (w : iow) : iow :=
   match o with
-  | OSubmit i a f => submit i a f (log [10; 0] w)
+  | OSubmit i a f fo => submit i a f fo (log [10; 0] w)
   | OConfirm a ok => confirm a ok (log [10; 1] w)
   | OAbort i => abort_io i (log [10; 2] w)
   | ORun => run_batch (log [10; 3] w)
